@@ -97,6 +97,12 @@ pub fn run(ctx: &Ctx) -> Verdict {
         .push(vcore::run_proptest(ctx, "unordered-chains", n, gen::scenario(cfg(0)), check));
     v.subs
         .push(vcore::run_proptest(ctx, "mixed-ordered-chains", n, gen::scenario(cfg(110)), check));
+    // the single-use rule for every composite return shape (owned leaves up to three levels down):
+    // the C12 grid (shape x entry x quantifier x 0..3 requests), here for "the second request panics"
+    #[cfg(feature = "std")]
+    v.subs.push(vcore::run_enumerated(ctx, "single-use-composite-shapes", super::c12::grid(), |c| {
+        super::c12::check(c).map(|i| CaseInfo { nontrivial: true, classes: i.classes })
+    }));
     // the same chain positions handed out to racing threads: every schedule of the small
     // configurations (engine E3, shared with C10): the multiset of responses must be positions 1..N
     #[cfg(feature = "std")]
@@ -110,6 +116,11 @@ pub fn run(ctx: &Ctx) -> Verdict {
 }
 
 pub fn replay(_sub: &str, case: Value) -> Result<(), String> {
+    #[cfg(feature = "std")]
+    if _sub == "single-use-composite-shapes" {
+        let c: super::c12::LinearCase = serde_json::from_value(case).map_err(|e| format!("HARNESS: bad case: {e}"))?;
+        return super::c12::check(&c).map(|_| ());
+    }
     #[cfg(feature = "std")]
     if _sub.starts_with("racing") {
         return super::c10::replay(_sub, case);
